@@ -286,6 +286,74 @@ pub fn redundancy_texts() -> Vec<String> {
     out
 }
 
+/// Every code point of the basic plane (and a stride through the others) as a one-character and
+/// as an embedded argument of the primaries that process their string (case folding, escaping,
+/// matching, byte-wise arithmetic on characters): slice `shard` of `nshards`.
+pub fn codepoint_texts(shard: usize, nshards: usize, out: &mut Vec<String>) {
+    let mut cps: Vec<u32> = (1u32..0x1_1000).collect();
+    cps.extend((0x1_1000u32..=0x10_FFFF).step_by(251));
+    for (i, cp) in cps.into_iter().enumerate() {
+        if i % nshards != shard {
+            continue;
+        }
+        let Some(c) = char::from_u32(cp) else { continue };
+        let q = if c == '\'' { '"' } else { '\'' };
+        out.push(format!("-iname {q}{c}{q} -o -ipath {q}a{c}b*{q}{}", if i % 2 == 0 { " -print0" } else { "" }));
+        match i / nshards % 3 {
+            0 => out.push(format!("-name {q}{c}*{q} -o -path {q}{c}{q} -fprint0 f")),
+            1 => out.push(format!("-name {q}{c}{q} -o -xattr-match {q}{c}{q} {q}x{c}{q}")),
+            _ => {
+                if c != '%' && c != '\\' {
+                    out.push(format!("-printf {q}{c}\\n{q} -fprint {q}f{c}{q}"));
+                } else {
+                    out.push(format!("-pool {q}{c}{q}"));
+                }
+            }
+        }
+    }
+}
+
+/// strings made of brackets and pattern characters in every arrangement up to length 4 (a scanner
+/// that looks for the matching bracket computes positions), as pattern, attribute name and value
+pub fn bracket_texts() -> Vec<String> {
+    let alphabet = ['[', ']', 'a', '!', '-', '*'];
+    let mut words: Vec<String> = vec![String::new()];
+    let mut all: Vec<String> = vec![];
+    for _ in 0..4 {
+        let mut next = vec![];
+        for w in &words {
+            for c in alphabet {
+                next.push(format!("{w}{c}"));
+            }
+        }
+        all.extend(next.iter().cloned());
+        words = next;
+    }
+    let mut out = vec![];
+    for w in all {
+        if !w.contains('[') && !w.contains(']') {
+            continue;
+        }
+        out.push(format!("-xattr-match '{w}' v"));
+        out.push(format!("-xattr-match user.a '{w}'"));
+        out.push(format!("-name '{w}' -o -ipath '{w}' -fprint f"));
+    }
+    out
+}
+
+/// the parts of the corpus that C17 takes in full (C17 samples every third input of the rest)
+pub fn full_part(shard: usize, nshards: usize) -> Vec<String> {
+    let mut all = vec![];
+    codepoint_texts(shard, nshards, &mut all);
+    for (i, t) in bracket_texts().into_iter().enumerate() {
+        if i % nshards == shard {
+            all.push(t);
+        }
+    }
+    all.retain(|s| within_bounds(s));
+    all
+}
+
 /// The whole corpus, split in `nshards` deterministic slices; returns slice `shard`.
 pub fn texts(seed: u64, tier: Tier, shard: usize, nshards: usize) -> Vec<String> {
     let mut all: Vec<String> = vec![];
@@ -341,5 +409,7 @@ pub fn texts(seed: u64, tier: Tier, shard: usize, nshards: usize) -> Vec<String>
         }
     }
     all.retain(|s| within_bounds(s));
+    // last: the part C17 takes in full (it identifies it by its position at the end)
+    all.extend(full_part(shard, nshards));
     all
 }
